@@ -52,7 +52,7 @@ FLOORS = {
                                       "ctl.op.respell": 10, "ctl.scenario.qtypes.64+65": 200, "ctl.att.cname-first": 300,
                                       "ctl.udppath.big.rounds-completed": 36, "ctl.fwdlife.creation-race.rounds-completed": 36,
                                       "ctl.fwdlife.retire-while-blocked": 100},
-                           "c09pipe": {"pipe.recv.held": 1000, "pipe.cancel": 400, "pipe.closeswap": 600, "pipe.writefail": 150},
+                           "c09pipe": {"pipe.recv.held": 1000, "pipe.cancel": 400, "pipe.closeswap": 600, "pipe.writefail": 150, "pipe.abort-before-write": 150},
                            "c09sched": {"sched.at.e2r": 150, "sched.at.b5": 400}}},
     "thorough": {"lines": {"c09udp": 1700000, "c09fwd": 1600000, "c09ctl": 700000, "c09sched": 1900000, "c09pipe": 560000},
                  "counters": {"c09ctl": {"ctl.udppath.rounds-completed": 1480, "ctl.writers.rendezvous": 15000,
@@ -60,7 +60,7 @@ FLOORS = {
                                          "ctl.op.respell": 300, "ctl.scenario.qtypes.64+65": 6000, "ctl.att.cname-first": 10000,
                                          "ctl.udppath.big.rounds-completed": 270, "ctl.fwdlife.creation-race.rounds-completed": 360,
                                          "ctl.fwdlife.retire-while-blocked": 3000},
-                              "c09pipe": {"pipe.recv.held": 40000, "pipe.cancel": 15000, "pipe.closeswap": 25000, "pipe.writefail": 6000},
+                              "c09pipe": {"pipe.recv.held": 40000, "pipe.cancel": 15000, "pipe.closeswap": 25000, "pipe.writefail": 6000, "pipe.abort-before-write": 6000},
                               "c09sched": {"sched.at.e2r": 6000, "sched.at.b5": 15000}}},
 }
 
@@ -217,7 +217,8 @@ def run(ctx):
     ctx.trusted += [
         "sync/atomic, sync.Once, sync.Map, x/sync/singleflight, channels behave as linearizable objects (the models' atomic steps)",
         "miekg/dns Pack/Unpack round-trip on the messages used; Msg.Copy is a deep copy",
-        "fake upstreams: c09ScriptFwd honours DoUDP's contract (TC=1 => ErrDNSTruncated) which stream c09udp ties to the real DoUDP",
+        "fake upstreams: c09ScriptFwd honours DoUDP's contract (TC=1 => ErrDNSTruncated) which stream c09udp ties to the real DoUDP; a fake exchange entered with a dead context fails",
+        "forwardWithDialArg / getOrCreateDnsForwarder (incl. the creation race) and the whole UDP packet-send path are tied by oracles on the implementation only, not by a Lean model",
         "testing/synctest virtual time (timeouts of 5 s / 8 s pass without wall-clock waiting)",
         "the UDP packet-send path is exercised with a pre-injected loopback Anyfrom socket and real time (oracle on id/question only, races sought by crowds of coalesced waiters, not by schedule control)",
     ]
